@@ -507,6 +507,9 @@ def m_debug_nameless(rng, td):
     v = td.variants[placements(rng, td.variants)]
     vs = dict(v.sem.get("Debug", {}))
     vs["name"] = False
+    if v.style != "unit" and rng.random() < 0.5:
+        # shown in the other style (named as tuple / tuple as named): still nothing to print
+        vs["named_field"] = v.style != "named"
     v.sem["Debug"] = vs
     for f in v.fields:
         s = dict(f.sem.get("Debug", {}))
@@ -578,8 +581,10 @@ def union_cases(rng):
         return "union-unsafe-not-first", td, hook
     f = rng.choice(td.variants[0].fields)
     t = rng.choice(td.traits)
-    attr = {"Debug": "Debug(method(%sfmt_alt))" % RT, "PartialEq": "PartialEq(ignore)", "Hash": "Hash(method(%shash_alt))" % RT,
-            "Clone": "Clone(method(%sclone_alt))" % RT, "Copy": "Copy", "Eq": "Eq(ignore)",
+    attr = {"Debug": rng.choice(["Debug(method(%sfmt_alt))" % RT, "Debug = false", "Debug(ignore)", "Debug = zz"]),
+            "PartialEq": rng.choice(["PartialEq(ignore)", "PartialEq = false", "PartialEq(method(%seq_mod2))" % RT]),
+            "Hash": rng.choice(["Hash(method(%shash_alt))" % RT, "Hash = false", "Hash(ignore)", "Hash = true"]),
+            "Clone": "Clone(method(%sclone_alt))" % RT, "Copy": "Copy", "Eq": rng.choice(["Eq(ignore)", "Eq = false"]),
             "Default": None}.get(t)
     if attr is None:
         return None
